@@ -715,6 +715,10 @@ LAYOUTS = {
     'L3x2g1a'  : dict(nodes=2, cores=2, gpus=1, agent_nodes=1),
     'L1x4g3b0' : dict(nodes=1, cores=4, gpus=3, blocked_gpus=[0]),
     'L4x2'     : dict(nodes=4, cores=2, gpus=0),
+    # all nodes carry the same name (the Fork resource manager's virtual
+    # nodes are all `localhost`): the index identifies a node, not the name
+    'L2x2g1loc': dict(nodes=2, cores=2, gpus=1, lfs=2, mem=2,
+                      names=['localhost', 'localhost']),
     'L1x4lm'   : dict(nodes=1, cores=4, gpus=0, lfs=3, mem=3),
     'L1x2'     : dict(nodes=1, cores=2, gpus=0),
     'L1x4'     : dict(nodes=1, cores=4, gpus=0),
@@ -893,6 +897,9 @@ def scenarios(ctx_pid, quick):
     lm2 = ['l2', 'l1', 'r2l1', 'r2m1', 'm2', 'r3l1']
     for combo in itertools.product(lm2, repeat=2):
         add('lfsmem', 'L1x4lm', list(combo))
+
+    for combo in itertools.product(['c1', 'c2', 'r2', 'g1', 'l2'], repeat=2):
+        add('core', 'L2x2g1loc', list(combo))
 
     # cores_per_rank = 0 ("at least one core") on a partly occupied node
     for combo in itertools.product(['c0', 'r3c0', 'c1'], repeat=2):
